@@ -615,7 +615,7 @@ def _c19_unmarshal_errors(ctx):
 
 def check_C19(ctx):
     return run_leaf_property(ctx, dict(
-        theorems=["C19_str", "C19_err_wire", "C19_reader_names_itself", "C19_repeated_reader_names_itself", "C19_unmarshal_error_names_field"],
+        theorems=["C19_str", "C19_err_wire", "C19_reader_names_itself", "C19_repeated_reader_names_itself", "C19_unmarshal_error_names_field", "C19_unmarshal_error_names_schema_field"],
         suites=lambda c: [("fnstr", ["fnstr", c.seed, _n(c, 3000, 200000)]), ("readers", ["readers", c.seed, _n(c, 1500, 20000)])],
         extra=_c19_unmarshal_errors,
         rule="FieldNumber.String on boundaries (0, +-10^k+-1, Min/MaxInt32) and random int32 against strconv.Itoa; reader grid compares (field, class) of every error; "
